@@ -10,6 +10,9 @@ from . import execu as X
 from .models import HOOKS
 
 
+GLOBAL_REC = {}
+
+
 class _Rename(ast.NodeTransformer):
     def __init__(self, mapping):
         self.mapping = mapping
@@ -69,7 +72,7 @@ def count_fn(it, pred_body, argnames, elems):
     ctx = it.ctx
     body, key = canon_pred(pred_body, argnames)
     full = "cnt!%s!%s" % ("/".join(elems), key)
-    table = ctx.__dict__.setdefault("count_fns", {})
+    table = GLOBAL_REC      # z3's context is process-global: recursive definitions are shared by all tasks
     if full in table:
         return table[full]
     name = "count%d" % len(table)
@@ -262,3 +265,64 @@ X.Interp.spec_seq_std = _spec_seq_std
 from . import arrays as _arrays  # noqa: E402
 _arrays.EXTRA_EXT["numpy.mean"] = _np_mean
 _arrays.EXTRA_EXT["numpy.std"] = _np_std
+
+
+# -- sums over sequences: spec forms and automatic instantiation of the (proved) library lemmas ------------------
+def _hseq(it, v):
+    if isinstance(v, SOpt):
+        v = v.val
+    if tag(v) == "zarray":
+        return HSeq(v[1], z3.IntVal(0), z3.IntVal(0), v[2])
+    o = it.run.obj(v)
+    if isinstance(o, HList):
+        o = it.list_to_seq(o)
+    return o
+
+
+def _spec_asum(self, e, fr):
+    o = _hseq(self, self.ev(e.args[0], fr))
+    lo = b2i(z(self.ev(e.args[1], fr)))
+    hi = b2i(z(self.ev(e.args[2], fr)))
+    f = vsum_fn(self, o.arr.sort().range())
+    return f(o.arr, o.lo + lo, o.lo + hi)
+
+
+def _spec_store(self, e, fr):
+    o = _hseq(self, self.ev(e.args[0], fr))
+    k = b2i(z(self.ev(e.args[1], fr)))
+    v = self.ev(e.args[2], fr)
+    return self.run.alloc(HSeq(z3.Store(o.arr, o.lo + k, self.elem_term(v, o.elem)), o.lo, o.hi, o.elem))
+
+
+def vsum_fn(it, es):
+    dummy = HSeq(z3.K(INT, z3.IntVal(0) if es == INT else z3.RealVal(0)), z3.IntVal(0), z3.IntVal(0))
+    it.ctx.models.vsum(it, dummy)
+    return it.ctx.ufs["rec!vsum_%s" % ("int" if es == INT else "real")]
+
+
+X.Interp.spec_asum = _spec_asum
+X.Interp.spec_store = _spec_store
+
+
+def note_append(it, o, old_arr, old_hi):
+    """instance of lemma vsum_frame: writing at or beyond hi does not change the sum of [lo, hi)"""
+    es = o.arr.sort().range()
+    if es not in (INT, REAL):
+        return
+    f = vsum_fn(it, es)
+    it.ctx.fact(z3.Implies(o.lo <= old_hi, f(o.arr, o.lo, old_hi) == f(old_arr, o.lo, old_hi)),
+                key=("vsum-frame", o.arr.sexpr(), str(o.lo)))
+    it.run.assumed.append("lemma:vsum_frame")
+
+
+def note_slice(it, o, new_lo, new_hi):
+    """instance of lemma vsum_split at the new bounds"""
+    es = o.arr.sort().range()
+    if es not in (INT, REAL):
+        return
+    f = vsum_fn(it, es)
+    a, lo, hi = o.arr, o.lo, o.hi
+    it.ctx.fact(z3.Implies(z3.And(lo <= new_lo, new_lo <= new_hi, new_hi <= hi),
+                           f(a, lo, hi) == f(a, lo, new_lo) + f(a, new_lo, new_hi) + f(a, new_hi, hi)),
+                key=("vsum-split", a.sexpr(), str(lo), str(hi), str(new_lo), str(new_hi)))
+    it.run.assumed.append("lemma:vsum_split")
